@@ -63,6 +63,22 @@ def check(facts, rep, tier, cfg):
     check_r7_initial_state(facts, rep, crate)
     check_r8_read_not_gated_on_flush(facts, rep, bodies)
     check_r9_flush_before_idle(facts, rep, bodies)
+    # ---- R10 one unit of credit per frame sent by the bridge (= the C03 credit rules, instances in the bridge)
+    rep.rule("C13.R10", "every Push the bridge queues is paid for by its own credit take: the queue send is dominated by the success edge of a take and "
+                        "every cycle through it passes a take (= C03.R1 / R2 / R7 on the bridge)")
+    import rules_c03
+    sub = type(rep)(rep.prop, rep.tier, rep.config)
+    rules_c03.check(facts, sub, tier, cfg)
+    k10 = 0
+    for i in sub.instances:
+        if i["rule"] in ("C03.R1", "C03.R7") and "copy_bidirectional" in (i["where"] + i["key"]):
+            k10 += 1
+            rep.ok("C13.R10", "%s/%s" % (i["rule"], i["key"]), i["where"], i["detail"], nontrivial=False)
+    for v in sub.violations:
+        if v["rule"] in ("C03.R1", "C03.R2", "C03.R7") and "copy_bidirectional" in (v["where"] + v["key"]):
+            k10 += 1
+            rep.bad("C13.R10", v["key"], v["where"], v["msg"])
+    rep.floor("C13.R10", "credit obligations of the bridge", k10, 1)
     rep.rule("C13.S7", "no new process-wide mutable state (static cell / lock / once-cell) in the files this property is anchored in")
     import whomay
     whomay.check_new_statics(facts, rep, "C13.S7", "C13")
